@@ -111,6 +111,16 @@ func (s SuffrageProof) Prove(previousState base.State) error {
 		}
 	}
 
+	// NOTE the proof should lead to the states tree of the manifest; without
+	// this, any self-consistent tree proves any state.
+	switch nodes := s.proof.Nodes(); {
+	case len(nodes) < 1, nodes[len(nodes)-1] == nil:
+		return e.Errorf("empty root node in proof")
+	case s.m.Manifest().StatesTree() == nil,
+		!nodes[len(nodes)-1].Hash().Equal(s.m.Manifest().StatesTree()):
+		return e.Errorf("root of proof does not match with states tree of manifest")
+	}
+
 	if err := s.proof.Prove(s.st.Hash().String()); err != nil {
 		return e.WithMessage(err, "prove suffrage")
 	}
